@@ -28,7 +28,7 @@ macro_rules! t_c04_bytes_find {
     };
 }
 t_c04_bytes_find! {c04_bytes_find, 4, 3, 15}
-t_c04_bytes_find! {c04_bytes_find_big, 6, 3, 22} // tier=thorough bound="hay<=6 bytes, needle<=3 bytes, all byte values"
+t_c04_bytes_find! {c04_bytes_find_big, 6, 3, 22} //  bound="hay<=6 bytes, needle<=3 bytes, all byte values" tier=quick
 
 macro_rules! t_c04_bytes_rfind {
     ($name:ident, $h:literal, $n:literal, $u:literal) => {
@@ -88,7 +88,7 @@ macro_rules! t_c04_bytes_find_skip_keep {
     };
 }
 t_c04_bytes_find_skip_keep! {c04_bytes_find_skip_keep, 4, 3, 15}
-t_c04_bytes_find_skip_keep! {c04_bytes_find_skip_keep_big, 6, 3, 22} // tier=thorough bound="hay<=6 bytes, needle<=3 bytes, all byte values"
+t_c04_bytes_find_skip_keep! {c04_bytes_find_skip_keep_big, 6, 3, 22} //  bound="hay<=6 bytes, needle<=3 bytes, all byte values" tier=quick
 
 macro_rules! t_c04_bytes_rfind_skip_keep {
     ($name:ident, $h:literal, $n:literal, $u:literal) => {
@@ -225,7 +225,7 @@ macro_rules! t_c04_str_find_skip_keep {
         }
     };
 }
-t_c04_str_find_skip_keep! {c04_str_find_skip_keep, 4, 2, 11} // tier=thorough
+t_c04_str_find_skip_keep! {c04_str_find_skip_keep, 4, 2, 11} // tier=quick
 t_c04_str_find_skip_keep! {c04_str_find_skip_keep_big, 5, 3, 18} // tier=thorough bound="valid UTF-8 string<=5 bytes, &str pattern<=3 bytes"
 
 macro_rules! t_c04_split_once {
@@ -265,6 +265,65 @@ macro_rules! t_c04_split_once {
 }
 t_c04_split_once! {c04_split_once, 4, 2, 11}
 t_c04_split_once! {c04_split_once_big, 5, 3, 18} // tier=thorough bound="valid UTF-8 string<=5 bytes, &str pattern<=3 bytes"
+
+fn same_opt_pair(x: Option<(&str, &str)>, y: Option<(&str, &str)>) -> bool {
+    match (x, y) {
+        (None, None) => true,
+        (Some((a, b)), Some((c, d))) => same_str(a, c) && same_str(b, d),
+        _ => false,
+    }
+}
+
+harness! {
+    /// kind=bounded tier=quick bound="pattern-kind independence at the string level, forward family: every valid UTF-8 string <= 4 bytes, ANY char c; find_skip / find_keep / split_once called with the char give the same result (same place) as called with the char's encoding as a &str"
+    #[kani::unwind(19)]
+    fn c04_str_char_kind_eq_str_kind_fwd(s) {
+        let hs = BStr::<4>::any(s);
+        let c = s.char();
+        let h = hs.as_str();
+        let mut tmp = [0u8; 4];
+        let p: &str = c.encode_utf8(&mut tmp);
+        chk!(s, same_opt_str(string::find_skip(h, c), string::find_skip(h, p)), "C04.string_find_skip.char_eq_str_kind");
+        chk!(s, same_opt_str(string::find_keep(h, c), string::find_keep(h, p)), "C04.string_find_keep.char_eq_str_kind");
+        let r = string::split_once(h, c);
+        chk!(s, same_opt_pair(r, string::split_once(h, p)), "C04.split_once.char_eq_str_kind");
+        cov!(s, p.len() == 3 && matches!(r, Some((a, _)) if a.len() == 1), "C04.cover.split_once_three_byte_char_after_ascii");
+    }
+}
+
+harness! {
+    /// kind=bounded tier=quick bound="pattern-kind independence at the string level, reverse family: every valid UTF-8 string <= 4 bytes, ANY char c; rfind_skip / rfind_keep / rsplit_once with the char vs with its encoding as a &str"
+    #[kani::unwind(19)]
+    fn c04_str_char_kind_eq_str_kind_rev(s) {
+        let hs = BStr::<4>::any(s);
+        let c = s.char();
+        let h = hs.as_str();
+        let mut tmp = [0u8; 4];
+        let p: &str = c.encode_utf8(&mut tmp);
+        chk!(s, same_opt_str(string::rfind_skip(h, c), string::rfind_skip(h, p)), "C04.string_rfind_skip.char_eq_str_kind");
+        chk!(s, same_opt_str(string::rfind_keep(h, c), string::rfind_keep(h, p)), "C04.string_rfind_keep.char_eq_str_kind");
+        let r = string::rsplit_once(h, c);
+        chk!(s, same_opt_pair(r, string::rsplit_once(h, p)), "C04.rsplit_once.char_eq_str_kind");
+        cov!(s, p.len() == 3 && matches!(r, Some((a, _)) if a.len() == 1), "C04.cover.rsplit_once_three_byte_char_after_ascii");
+    }
+}
+
+harness! {
+    /// kind=bounded tier=quick bound="pattern-kind independence, find / rfind / contains / rcontains: every valid UTF-8 string <= 4 bytes, ANY char c vs its encoding as a &str"
+    #[kani::unwind(19)]
+    fn c04_str_char_kind_eq_str_kind_find(s) {
+        let hs = BStr::<4>::any(s);
+        let c = s.char();
+        let h = hs.as_str();
+        let mut tmp = [0u8; 4];
+        let p: &str = c.encode_utf8(&mut tmp);
+        chk!(s, string::find(h, c) == string::find(h, p), "C04.string_find.char_eq_str_kind");
+        chk!(s, string::rfind(h, c) == string::rfind(h, p), "C04.string_rfind.char_eq_str_kind");
+        chk!(s, string::contains(h, c) == string::contains(h, p), "C04.string_contains.char_eq_str_kind");
+        chk!(s, string::rcontains(h, c) == string::rcontains(h, p), "C04.string_rcontains.char_eq_str_kind");
+        cov!(s, p.len() == 3 && string::find(h, c) == Some(1), "C04.cover.three_byte_char_found_after_ascii");
+    }
+}
 
 harness! {
     /// kind=bounded tier=quick bound="hay<=4 bytes; pattern kinds [u8;2], [u8], str, char"
